@@ -121,7 +121,9 @@ CHECKS.update({
         "conversion (top level groups without objects, duplicated names "
         "around the group, invalid PDS groups), plain dicts; 4 encoders x "
         "random options; via encoder.encode on a reused instance and via "
-        "pvl.dumps. The only accepted difference is a top-level PVLGroup "
+        "pvl.dumps; between the first and second dump the other three dialects "
+        "write long labels and the same instance writes another module through "
+        "pvl.dumps/pvl.dump with other settings alongside. The only accepted difference is a top-level PVLGroup "
         "that became a PVLObject with identical items at the same position.",
         "Snapshot compares structure, order, multiplicity, class and leaf "
         "repr (not object identity).",
@@ -249,7 +251,11 @@ CHECKS.update({
         "Generated ASCII labels with 9 classes of trailing bytes (random "
         "binary, high bytes first, UTF-8 text, PVL-looking text, NULs, "
         "punctuation, long unbroken runs, undecodable byte at 4096/8192/16384 "
-        "boundaries) and 5 separators, plus non-ASCII UTF-8 labels; through "
+        "boundaries) and 9 separators, plus non-ASCII UTF-8 labels; 3 in 7 "
+        "labels for the default loader, 4 in 7 for a strict PVL/ODL/PDS3/ISIS "
+        "parser passed as parser= (then also with the data directly behind END, "
+        "starting with a character the dialect forbids); a quarter of the "
+        "labels hold a line reading END inside a quoted string or comment; through "
         "load(str|Path|text stream|binary stream|BytesIO), loadu(file URL), "
         "loads(str|bytes); dump to path/Path/text/binary/BytesIO/StringIO "
         "compared byte for byte with dumps and the returned length.",
